@@ -313,7 +313,7 @@ pub fn gen_onchain_case(rng: &mut Rng) -> Vec<String> {
     let gap = pick_u64(rng, &[0, 0, 0, 1, 2, 5, 9]);
     pol.use_chain = rng.chance(1, 3);
     let mut plan = Plan { pol: pol.clone(), setup: setup.clone(), height: 3 + gap };
-    let mut ops = vec![pol.line(), format!("{} {} {}", setup.line(), rng.chance(1, 4) as u64, gap)];
+    let mut ops = vec![pol.line(), format!("{} {} {}", setup.line(), if rng.chance(1, 4) { 1 + rng.below(2) } else { 0 }, gap)];
     let mut sim = ChainSim::with_gap(gap);
     // expected counters and the contents last accepted per number
     let (mut nh, mut nc, mut nr) = (0u64, 0u64, 0u64);
